@@ -193,6 +193,10 @@ fn eval(p: &PathSpec, tol: f32, with_fill: bool) -> Result<(u64, bool, f64), Vio
     if let Some(bad) = flat.ops.iter().find(|o| matches!(o, PathOp::QuadTo(..) | PathOp::CubicTo(..))) {
         return Err(Violation::new("flatten/curve-left-in-output", case_str(p, tol), format!("output contains {:?}", bad)));
     }
+    // filling or hit-testing the flattened path agrees with the original: its winding rule is the original's
+    if flat.winding != path.winding {
+        return Err(Violation::new("flatten/winding-rule-not-preserved", case_str(p, tol), format!("the path is {:?}, its flattening {:?}", path.winding, flat.winding)));
+    }
     let mut maxdev = 0.0;
     if let Err(f) = matcher(&p.ops, &flat.ops, 0, 0, None, None, tol as f64, &mut maxdev) {
         return Err(Violation::new(format!("flatten/{}", f.clause), case_str(p, tol), format!("{}\noutput: {:?}", f.detail, flat.ops)));
